@@ -85,6 +85,19 @@ func c19Inputs(seed uint64, p c19Params, src string) []toolInput {
 		in.Flags = drawFlags(r, in.Rules, true)
 		ins = append(ins, in)
 	}
+	for i := 0; i < p.gen/6; i++ {
+		in := genOptShape(r)
+		in.Flags = drawFlags(r, in.Rules, false)
+		if !contains(in.Flags, "-optimize-grammar") {
+			in.Flags = append(in.Flags, "-optimize-grammar")
+		}
+		ins = append(ins, in)
+	}
+	for i := 0; i < p.gen/10; i++ {
+		in := genLRRecovery(r)
+		in.Flags = drawFlags(r, in.Rules, true)
+		ins = append(ins, in)
+	}
 	// library-style double builds of a third of the inputs so far
 	for i, n := 0, len(ins); i < n; i++ {
 		if r.chance(1, 3) && !contains(ins[i].Flags, "-x") {
